@@ -46,7 +46,7 @@ ASSUMPTIONS = [
     "date microseconds are restricted to values llbase's text date parser does not truncate (int(float('0.x')*1e6), "
     "third-party code)",
 ]
-MUST_REACH = {"msg_roundtrips_custom_template": 300, "msg_dict_roundtrips": 400, "msg_xml_roundtrips": 400, "templates_covered": 481, "tree_roundtrips": 2000,
+MUST_REACH = {"calls_from_concurrent_threads": 1000, "msg_roundtrips_custom_template": 300, "msg_dict_roundtrips": 400, "msg_xml_roundtrips": 400, "templates_covered": 481, "tree_roundtrips": 2000,
               "codec_binary": 300, "codec_binary_noheader": 300, "codec_zipped": 300, "codec_notation": 300, "codec_xml": 300,
               "dates_checked": 100, "aware_dates_checked": 20, "uris_checked": 50, "newline_strings_checked": 50,
               "quaternion_messages": 5, "tz_covered": 3, "u64_messages": 10, "ip_messages": 5}
@@ -413,7 +413,40 @@ def _typeclass(types, e):
     return type(e).__name__
 
 
+def threads_phase(ctx, rng):
+    """LLSD codecs and the message serializer, the same calls from several threads at once."""
+    from ..threads import run_concurrently
+    jobs = []
+    for _ in range(40):
+        tree = gen_tree(rng, 3, ctx, xml_safe=True)
+        for name, (fmt, parse) in list(CODECS.items())[:4]:
+            try:
+                enc = fmt(tree)
+                back = repr(tagged(parse(enc)))
+            except Exception:
+                continue
+            jobs.append((lambda fmt=fmt, t=tree: fmt(t), enc))
+            jobs.append((lambda parse=parse, enc=enc: repr(tagged(parse(enc))), back))
+    templates = gen_msg.all_templates()
+    for _ in range(30):
+        tmpl = rng.choice(templates)
+        spec = gen_msg.gen_spec(rng, tmpl, {"xml_safe": True, "flags": 0, "p_extra": 0, "max_var_len": 100, "small_block": 6})
+        if not (finite_spec(spec) and _xml_ok(spec)):
+            continue
+        try:
+            msg = gen_msg.build_message(spec)
+            packed = _llsd_ser.serialize(msg, as_dict=False)
+            d = _llsd_ser.deserialize(packed).to_dict()
+        except Exception:
+            continue
+        jobs.append((lambda m=msg: _llsd_ser.serialize(m, as_dict=False), packed))
+        jobs.append((lambda b=packed: _llsd_ser.deserialize(b).to_dict(), d))
+    run_concurrently(ctx, "llsd", jobs, reps=ctx.pick(3, 20))
+
+
 def run(ctx):
+    if ctx.shard == 0:
+        threads_phase(ctx, ctx.rng)
     tz = TZS[ctx.shard % len(TZS)]
     os.environ["TZ"] = tz
     time.tzset()
